@@ -122,6 +122,10 @@ def grammar_text(P):
         out.append(render_def(name, None, body, P))
     for name, params, body in P['templates']:
         out.append(render_def(name, params, body, P))
+    if P.get('ignore'):
+        # the inputs of these programs never contain a blank: the declaration changes how the grammar is prepared
+        # (leading skip of the start rule, skip_ignored on literals), not what the programs mean
+        out.append('ignore / +/\n')
     return ''.join(out)
 
 
@@ -265,6 +269,28 @@ def python_names(e):
     raise ValueError(k)
 
 
+def ref_names(e, P):
+    """names of the rules an expression refers to (as they are spelled in the description)"""
+    k = e[0]
+    if k == 'ref':
+        return {P['rules'][e[1]][0]}
+    if k in ('lit', 'cc', 'py', 'pvar'):
+        return set()
+    if k in ('seq', 'choice'):
+        return set().union(*[ref_names(x, P) for x in e[1]]) if e[1] else set()
+    if k in ('star', 'opt', 'where', 'apply', 'rep'):
+        return ref_names(e[1], P)
+    if k == 'applyl':
+        return ref_names(e[1], P) | ref_names(e[2], P)
+    if k == 'let':
+        return ref_names(e[2], P) | ref_names(e[3], P)
+    if k == 'call':
+        return set().union(*[ref_names(a, P) for _, a in e[2]]) if e[2] else set()
+    if k == 'bseq':
+        return set().union(*[ref_names(x, P) for _, x in e[3]]) if e[3] else set()
+    raise ValueError(k)
+
+
 def bind_args(params, args):
     pos = [a for kw, a in args if kw is None]
     kws = {kw: a for kw, a in args if kw is not None}
@@ -318,8 +344,8 @@ def expand(e, P, depth=0):
             a = expand(bound[q], P, depth)
             if a is None:
                 return None
-            if free_names(a) & inner_binders:
-                return None          # capture: not expressible without renaming
+            if (free_names(a) | ref_names(a, P)) & inner_binders:
+                return None          # capture (of a local name or of the spelling of a rule): not expressible without renaming
             if a[0] == 'py':
                 lets.append((q, a))                       # a value
             elif a[0] == 'pvar':
@@ -532,6 +558,8 @@ class Gen:
         for _ in range(n):
             kd = r.choice(['P', 'P', 'S', 'I', 'A', 'B'])
             nm = self.fresh(scope, parser=kd in 'PB')
+            if r.random() < 0.12:
+                nm = r.choice(['R1', 'R2'])      # a parameter that hides a rule of the same name
             while nm in scope:
                 nm = self.fresh({**scope, **{x: 'S' for x in VAL_NAMES if x in scope}}, parser=kd in 'PB') + 'q'
 
@@ -577,13 +605,17 @@ class Gen:
         for i in range(n_templates):
             self.templates.append(self.template(i, depth - 1))
         rules = []
+        hidden = {q for _, ps, _, _ in self.templates for q in ps}
         for i in range(n_rules):
-            if i > 0 and self.rng.random() < 0.3:
-                body = self.class_body(f'R{i}', depth, {}, i)
+            # (a rule whose name a parameter hides stays a plain rule: a class R1 whose body, after expansion,
+            # binds a local R1 would hide its own constructor - a collision the renaming property C20 excludes)
+            if f'R{i}' not in hidden and ((i > 0 and self.rng.random() < 0.3) or (i == 0 and self.rng.random() < 0.15)):
+                body = self.class_body('start' if i == 0 else f'R{i}', depth, {}, i)
             else:
                 body = self.expr(depth, {}, i)[0]
             rules.append(('start' if i == 0 else f'R{i}', body))
-        return {'rules': rules, 'templates': [(n, p, b) for n, p, _, b in self.templates], 'named': self.named}
+        return {'rules': rules, 'templates': [(n, p, b) for n, p, _, b in self.templates], 'named': self.named,
+                'ignore': self.rng.random() < 0.25}
 
 
 def inputs_for(rng, n=10):
